@@ -1,0 +1,32 @@
+//go:build verif
+
+// Package verifhook provides named instrumentation points for the external
+// verification harness. It is only active when built with the "verif" tag.
+package verifhook
+
+import "sync/atomic"
+
+// Handler is called at every instrumentation point.
+// It may record the event and/or block the calling goroutine (scheduler gate).
+type Handler func(point string, args ...any)
+
+var handler atomic.Pointer[Handler]
+
+// Set installs h as the handler. A nil h removes the handler.
+func Set(h Handler) {
+	if h == nil {
+		handler.Store(nil)
+		return
+	}
+	handler.Store(&h)
+}
+
+// Enabled reports whether hooks are compiled in.
+const Enabled = true
+
+// At is called by instrumented code at the named point.
+func At(point string, args ...any) {
+	if h := handler.Load(); h != nil {
+		(*h)(point, args...)
+	}
+}
